@@ -1,12 +1,105 @@
-(* C07 -- metric aggregation is order-independent; rename rules are applied faithfully.  Statements only. *)
-From Coq Require Import ZArith NArith List Bool Permutation.
+(* C07 -- metric aggregation is order-independent; rename rules are applied faithfully.  Statements only.
+   Domain: metric fields are integers (exact float64 domain); regular expressions through an abstract matcher. *)
+From Coq Require Import ZArith NArith List Bool Permutation Sorted.
 From Verif.Gen Require Import Limits_gen.
-From Verif Require Import Metrics MetricsProofs.
+From Verif Require Import Metrics MetricsProofs Rules RulesProofs.
 Import ListNotations.
 Open Scope Z_scope.
 
+(* metricData.aggregate is commutative and associative *)
 Theorem C07_aggregate_acm :
   (forall a b, aggregate a b = aggregate b a) /\
   (forall a b c, aggregate (aggregate a b) c = aggregate a (aggregate b c)).
 Proof. exact aggregate_acm. Qed.
 Print Assumptions C07_aggregate_acm.
+
+(* Two builds (any groupings into AddRaw calls, transactions, merges, failed-harvest carry-overs and rule
+   applications, evaluated under ANY map iteration orders) that deliver the same multiset of contributions
+   and in which nothing was refused at the capacity limit (refusal index 0) give the same data for every
+   key, namely the field-wise combination: counts/totals/exclusives/sums of squares added, min and max taken. *)
+Theorem C07_order_independent : forall b1 b2 t1 t2,
+  builds b1 t1 0 -> builds b2 t2 0 ->
+  Permutation (contribs FailedMetricAttemptsLimit b1) (contribs FailedMetricAttemptsLimit b2) ->
+  forall k, get k t1 = get k t2 /\
+            get k t1 = fieldwise (datas_at k (contribs FailedMetricAttemptsLimit b1)).
+Proof. exact order_independent. Qed.
+Print Assumptions C07_order_independent.
+
+(* What the iteration order of Merge can change: only WHICH unforced entries with new keys are refused.
+   Entries that are forced or whose key is present are combined in under every order, keys that are not
+   offered are untouched, and count + numDropped is the same under every order. *)
+Theorem C07_iteration_order_effect : forall t ord1 ord2,
+  NoDup (map fst ord1) -> Permutation ord1 ord2 ->
+  tcount (merge_entries t ord1) + tdropped (merge_entries t ord1) =
+  tcount (merge_entries t ord2) + tdropped (merge_entries t ord2) /\
+  (forall k e, In (k, e) ord1 -> forced e = true \/ get k t <> None ->
+     get k (merge_entries t ord1) = get k (merge_entries t ord2)) /\
+  (forall k, ~ In k (map fst ord1) -> get k (merge_entries t ord1) = get k (merge_entries t ord2)).
+Proof. exact merge_order_effect. Qed.
+Print Assumptions C07_iteration_order_effect.
+
+(* aggregateMetrics: every metric of a transaction is recorded unscoped, a scoped one also under the
+   transaction name (no refusal: numDropped unchanged) *)
+Theorem C07_scoped_also_unscoped : forall t txn ms,
+  tdropped (aggregate_metrics t txn ms) = tdropped t ->
+  (forall k, get k (aggregate_metrics t txn ms) =
+             oplus (get k t) (combined (flat_map (tmetric_contribs txn) ms) k)) /\
+  (forall m, In m ms ->
+     In (C (tm_name m, []) (tm_forced m) (tm_data m)) (flat_map (tmetric_contribs txn) ms) /\
+     (tm_scoped m = true ->
+      In (C (tm_name m, txn) (tm_forced m) (tm_data m)) (flat_map (tmetric_contribs txn) ms) /\
+      (exists d, get (tm_name m, []) (aggregate_metrics t txn ms) = Some d) /\
+      (exists d, get (tm_name m, txn) (aggregate_metrics t txn ms) = Some d))).
+Proof. exact scoped_also_unscoped. Qed.
+Print Assumptions C07_scoped_also_unscoped.
+
+(* ApplyRules on any reachable table, under any iteration order: nothing is refused (also when forced
+   metrics pushed the count past the capacity), the attempt counter and the capacity are kept, every
+   output key holds exactly the combination of the entries renamed to it, the call counts add up, and
+   (when nothing had been refused before) the output is the field-wise combination of the renamed
+   contributions. *)
+Theorem C07_rename_conserves : forall b t r rn ord,
+  builds b t r -> Permutation ord (entries t) ->
+  tdropped (apply_rules_ord rn t ord) = 0 /\
+  tfailed (apply_rules_ord rn t ord) = tfailed t /\
+  tmax (apply_rules_ord rn t ord) = tmax t /\
+  (forall k', get k' (apply_rules_ord rn t ord) =
+              msum (map (fun ke => if key_eqb (rn (fst (fst ke)), snd (fst ke)) k' then Some (data (snd ke)) else None)
+                        (entries t))) /\
+  zsum (map (fun ke => cnt (data (snd ke))) (entries (apply_rules_ord rn t ord))) =
+  zsum (map (fun ke => cnt (data (snd ke))) (entries t)) /\
+  (r = 0 -> forall k', get k' (apply_rules_ord rn t ord) =
+                       fieldwise (datas_at k' (map (rename_contrib rn) (contribs FailedMetricAttemptsLimit b)))).
+Proof. exact rename_conserves. Qed.
+Print Assumptions C07_rename_conserves.
+
+(* MetricRule.Apply / MetricRules.Apply / the sorting of NewMetricRulesFromJSON against the relational
+   specification RuleSem, for every matcher that returns in-range match positions. *)
+Theorem C07_rules_order : forall (regex : Type) (find_first : regex -> name -> option (nat * nat))
+        (replace_all : regex -> name -> name -> name),
+  matcher_wf regex find_first ->
+  (forall r s, rule_sem regex find_first replace_all r s
+                 (fst (rule_apply regex find_first replace_all r s)) (snd (rule_apply regex find_first replace_all r s))) /\
+  (forall r s r1 o1 r2 o2, rule_sem regex find_first replace_all r s r1 o1 ->
+                           rule_sem regex find_first replace_all r s r2 o2 -> r1 = r2 /\ o1 = o2) /\
+  (forall rs s, chain_sem regex find_first replace_all rs s false
+                  (fst (rules_apply regex find_first replace_all rs s)) (snd (rules_apply regex find_first replace_all rs s))) /\
+  (forall rs s m r1 o1 r2 o2, chain_sem regex find_first replace_all rs s m r1 o1 ->
+                              chain_sem regex find_first replace_all rs s m r2 o2 -> r1 = r2 /\ o1 = o2) /\
+  (forall rs, Permutation (sort_rules regex rs) rs /\ StronglySorted (order_le regex) (sort_rules regex rs)) /\
+  (forall rs s, rules_sem regex find_first replace_all rs s
+                  (fst (rules_apply regex find_first replace_all (sort_rules regex rs) s))
+                  (snd (rules_apply regex find_first replace_all (sort_rules regex rs) s))) /\
+  (forall rs s r1 o1 r2 o2, NoDup (map (fun r => r_order r) rs) ->
+      rules_sem regex find_first replace_all rs s r1 o1 -> rules_sem regex find_first replace_all rs s r2 o2 ->
+      r1 = r2 /\ o1 = o2).
+Proof. exact rules_order. Qed.
+Print Assumptions C07_rules_order.
+
+(* the hypothesis of C07_rules_order is met by the concrete matcher used for execution *)
+Theorem C07_rules_order_concrete :
+  (forall (r : crule) s, rule_sem cregex c_find_first c_replace_all r s (fst (c_rule_apply r s)) (snd (c_rule_apply r s))) /\
+  (forall (ws : list craw) s, rules_sem cregex c_find_first c_replace_all (compile_all cregex parse_re ws) s
+                                (fst (c_rules_apply (c_rules_from_json ws) s)) (snd (c_rules_apply (c_rules_from_json ws) s))).
+Proof. exact rules_order_concrete. Qed.
+Print Assumptions C07_rules_order_concrete.
